@@ -89,7 +89,10 @@ def bound(pattern, mode):
         from clastic import Application, Route
         if len(_apps) > 5000:
             _apps.clear()
-        app = Application([Route(pattern, lambda: None)], slash_mode=mode)
+        # the mode arrives as configuration data would: an equal string, not the module's constant object
+        given = mode.encode('ascii').decode('ascii')
+        assert given == mode and given is not mode
+        app = Application([Route(pattern, lambda: None)], slash_mode=given)
         _apps[key] = app.routes[0]
     return _apps[key]
 
